@@ -13,7 +13,7 @@ import traceback
 
 HERE = os.path.dirname(os.path.dirname(os.path.abspath(__file__)))
 CONTRACT_MODULES = ['classes', 'rfc_spec', 'c_crypto', 'c_message', 'c_encode', 'c_message_bytes', 'c_decode']
-TIMEOUT_MS = {'quick': 15000, 'thorough': 60000}
+TIMEOUT_MS = {'quick': 25000, 'thorough': 60000}   # wall-clock per solver call; sized for 16 busy cores
 
 _REPO = None
 _BASELINE_NAMES = set()
@@ -146,12 +146,15 @@ def worker(task):
             if r.status != 'discharged':
                 failed += 1
             if os.environ.get('PYVC_PROGRESS'):
-                print(f'  .. {r.status:10s} {r.time_s:7.1f}s {ob.name} {[t for t in ob.trail][-3:]}', file=sys.stderr, flush=True)
+                print(f'  .. {r.status:10s} {r.time_s:7.1f}s {r.backend} {ob.name} {[t for t in ob.trail][-3:]}', file=sys.stderr, flush=True)
             if r.status == 'unknown' and ob.name in _BASELINE_NAMES and retries < 3:
                 retries += 1
                 # an obligation that is discharged on the committed baseline came back undecided: retry
                 # with the thorough budget before it is reported as failed (guards against a slow machine)
                 r2 = discharge(ob, max(timeout_ms * 4, 60000))
+                if r2.status == 'unknown':
+                    from .verify import discharge_seeded
+                    r2 = discharge_seeded(ob, max(timeout_ms * 4, 60000), (7, 11, 13, 17, 19, 23))
                 r2.reason = (r2.reason or '') + ' (after extended retry)'
                 r = r2
             d = {'name': ob.name, 'props': list(ob.props or []), 'status': r.status, 'time_s': round(r.time_s, 4),
